@@ -1203,7 +1203,28 @@ func (e *Exec) unhandledPanic(gp *goPanic) {
 		}
 		e.popModel()
 		if r == "unknown" {
-			// paths entered through an undecided feasibility check are usually infeasible: ask the other solvers
+			// paths entered through an undecided feasibility check are usually infeasible: a fresh run of the
+			// primary solver, then the division lemmas, then the other solvers (only "unsat" is used from them)
+			if e.freshPrimary(q) == "unsat" {
+				r = "unsat"
+			}
+		}
+		if r == "unknown" {
+			if ls := e.tc.divLemmas(append([]*Term{q}, e.pc...)); len(ls) > 0 {
+				e.flush()
+				e.solver.Push()
+				for _, l := range ls {
+					e.flush()
+					e.solver.send("(assert " + l.ref + ")")
+				}
+				if e.checkWith(q, h.assertTimeoutMs) == "unsat" {
+					r = "unsat"
+				}
+				e.popModel()
+				e.solver.Pop()
+			}
+		}
+		if r == "unknown" {
 			r = e.portfolio(q)
 		}
 		var hits []*Scenario
